@@ -214,3 +214,9 @@ Definition mask_hide_cex (r s : list param) (n : nat) (names0 : list name)
                                      && accepts s (mkCall (m + npos c) (names1 ++ kws c ++ K)))
                            Ks) ms)
            (shapes_for [r; s]).
+
+(* C19: signature(partial) raises exactly when no call of the partial object
+   can succeed *)
+Definition partial_none_cex (s : list param) (n : nat) (names0 : list name) : option call :=
+  find_cex (fun c => negb (accepts s (partial_call n names0 c)))
+           (shapes_for [s]).
